@@ -480,6 +480,16 @@ func RunC19Classes(c *core.Ctx, idx int) {
 				return
 			}
 		}
+		// ... also when the first caller had no notation to give (that is how GetClass() asks)
+		type fresh2 [12]uint16
+		if a0, a1 := col.Array[fresh2](nil), col.Array[fresh2](n); any(a0) != any(a1) {
+			c.Violation("classes/not-the-one-class", "Array[T](nil) followed by Array[T](notation) returned two classes", map[string]any{"accessor": "Array"})
+			return
+		}
+		if l0, l1 := col.List[fresh2](nil), col.List[fresh2](n); any(l0) != any(l1) {
+			c.Violation("classes/not-the-one-class", "List[T](nil) followed by List[T](notation) returned two classes", map[string]any{"accessor": "List"})
+			return
+		}
 		c.Cover("classes.getclass-agrees-with-accessor")
 	}
 	c.CoverN("classes.accessors-probed", len(ps))
